@@ -536,6 +536,17 @@ def check_C16(ctx):
     ctx.notes.update(st)
     ctx.sample(read_line(shards[0], 1))
     reproduce_asm(ctx, "C16", rej, replay_cmd="rt-replay", sigfn=tool_sig, module="ToolTrace")
+    # the same listings as the command-line tool prints them: gmars -A on generated warrior files, custom flags and presets;
+    # TLC reads each listing back and requires what the file denotes (Asm!Meaning) under the configuration of the flags
+    binp = build_gmars(ctx)
+    shardsA, stA = gen_asm(ctx, "cli", ["-bin", binp, "-shards", 8, "-n", 150 if ctx.quick else 4000, "-assemble"], "c16cli")
+    rejA, nomA = validate_asm(ctx, shardsA, "C16", module="CliTrace", heap="6g")
+    ctx.notes["cli_assemble_invocations"] = stA["invocations"]
+    ctx.notes["cli_assemble_without_meaning"] = nomA
+    ctx.cov["traces_validated_against_impl"] += stA["invocations"]
+    ctx.cov["evaluations"] += stA["invocations"]
+    ctx.cov["distinct_nontrivial"] += stA["invocations"] - nomA
+    confirm_cli(ctx, "C16", rejA, binp)
 
 
 # ------------------------------------------------------------------ C17
@@ -549,6 +560,8 @@ def build_gmars(ctx):
 
 def cli_sig(mode, e):
     f = e["flags"]
+    if e["ev"] == "cliA":
+        return "%s cli -A %s dialect=%s warriors=%d exit=%s" % (mode, "preset=" + f["preset"] if f["preset"] else "custom", e["progs"][0]["dialect"], len(e["progs"]), e["exit"])
     kind = "preset=" + f["preset"] if f["preset"] else ("random-placement" if f["F"] == 0 and len(e["progs"]) == 2 else "fixed")
     return "C17 cli %s exit=%s%s" % (kind, e["exit"], " p>s" if not f["preset"] and f["p"] > f["s"] else "")
 
@@ -574,22 +587,26 @@ def check_C17(ctx):
     ctx.notes.update(st)
     ctx.notes["invocations_without_meaning"] = nom
     ctx.sample({k: v for k, v in read_line(shards[0], 1).items() if k != "raw"})
+    confirm_cli(ctx, "C17", rej, binp)
+
+
+def confirm_cli(ctx, prop, rej, binp):
     seen = {}
     for shard, idx in rej:
         e = read_line(shard, idx)
-        seen.setdefault(cli_sig("C17", e), []).append(e)
+        seen.setdefault(cli_sig(prop, e), []).append(e)
     for n, (sig, evs) in enumerate(list(seen.items())[:12]):
         e = evs[0]
-        d = ctx.sub("clirepro%d" % n)
+        d = ctx.sub("clirepro%s%d" % (prop, n))
         src = os.path.join(d, "in.ndjson")
         open(src, "w").write(json.dumps(e) + "\n")
         ctx.run_harness(["cli-replay", "-in", src, "-out", os.path.join(d, "re"), "-bin", binp])
         rf = os.path.join(d, "re.000.ndjson")
         rej2, _ = validate_asm(ctx, [rf], "C17", module="CliTrace", heap="6g")
         e2 = read_line(rf, 1)
-        if not rej2 and not (e["flags"]["F"] == 0 and len(e["progs"]) == 2):
+        if not rej2 and not (e["ev"] == "cli" and e["flags"]["F"] == 0 and len(e["progs"]) == 2):
             raise ToolError("rejection (%s) did not reproduce" % sig)
-        what = "gmars %s on %s printed %r (exit %s, stderr %r)" % (" ".join("-%s %s" % (k, v) for k, v in e["flags"].items() if v not in (0, "")),
+        what = "gmars %s%s on %s printed %r (exit %s, stderr %r)" % ("-A " if e["ev"] == "cliA" else "", " ".join("-%s %s" % (k, v) for k, v in e["flags"].items() if v not in (0, "")),
                                                                [render_prog_brief(p)[:160] for p in e["progs"]], e2["raw"], e2["exit"], e2["stderr"][:200])
         ctx.violation(sig, what, dict(kind="cli", event=e, others_with_same_signature=len(evs) - 1))
 
